@@ -145,7 +145,7 @@ func genTransparencyScenario(t *rapid.T) *Case {
 			return Op{K: "publish", S: uni(t, n, "ps"), URI: "a.b", Opts: []KV{{"acknowledge", VBool(true)}}, Args: genArgs(t, valOpts{})}
 		}
 		return g.op(t)
-	}), 1, 25).Draw(t, "ops")
+	}), minHistory(t, 25), 25).Draw(t, "ops")
 	c.Ops = append(c.Ops, ops...)
 	return c
 }
